@@ -285,8 +285,11 @@ func (v *VestWorld) StateDigest() string {
 
 // Delegate delegates amt uc4e from addr to the genesis validator with a real MsgDelegate.
 func (v *VestWorld) Delegate(addr sdk.AccAddress, amt sdk.Int) MsgResult {
-	return v.Run(&stakingtypes.MsgDelegate{DelegatorAddress: addr.String(), ValidatorAddress: v.W.ValAddr.String(), Amount: sdk.NewCoin(Denom, amt)})
+	return v.Run(&stakingtypes.MsgDelegate{DelegatorAddress: addr.String(), ValidatorAddress: v.W.ValAddr.String(), Amount: sdk.NewCoin(v.BondDenom(), amt)})
 }
+
+// BondDenom is the staking module's bond denomination on this chain (uc4e unless the chain is configured otherwise).
+func (v *VestWorld) BondDenom() string { return v.App.StakingKeeper.BondDenom(v.Ctx) }
 
 // CompleteUnbondings moves the clock past the unbonding period and runs the staking module's
 // EndBlocker, which pays matured unbonding delegations back to their delegators.
@@ -310,7 +313,7 @@ func (v *VestWorld) SlashValidator(fraction sdk.Dec) {
 }
 
 func (v *VestWorld) Undelegate(addr sdk.AccAddress, amt sdk.Int) MsgResult {
-	return v.Run(&stakingtypes.MsgUndelegate{DelegatorAddress: addr.String(), ValidatorAddress: v.W.ValAddr.String(), Amount: sdk.NewCoin(Denom, amt)})
+	return v.Run(&stakingtypes.MsgUndelegate{DelegatorAddress: addr.String(), ValidatorAddress: v.W.ValAddr.String(), Amount: sdk.NewCoin(v.BondDenom(), amt)})
 }
 
 func (v *VestWorld) CVA(addr sdk.AccAddress) *authvesting.ContinuousVestingAccount {
